@@ -135,10 +135,16 @@ func Upstream(w *world.World, raws []json.RawMessage) ([]interface{}, error) {
 		for i := 0; i < c.N; i++ {
 			uc.Servers = append(uc.Servers, config.UpstreamServerConfig{Addr: "http://" + bs[i].addr, Backup: c.Backup[i]})
 		}
-		upstream.ResetWithOnStats([]config.UpstreamConfig{uc}, nil)
+		// a second upstream group is always configured after the one under test: the same backends in reverse order
+		// with the backup flags inverted (groups must not influence each other)
+		other := config.UpstreamConfig{Name: "other", Policy: c.Policy}
+		for i := c.N - 1; i >= 0; i-- {
+			other.Servers = append(other.Servers, config.UpstreamServerConfig{Addr: "http://" + bs[i].addr, Backup: !c.Backup[i]})
+		}
+		upstream.ResetWithOnStats([]config.UpstreamConfig{uc, other}, nil)
 		if c.Ticker {
 			// a reload of the same configuration, then only pike's own periodic checker
-			upstream.ResetWithOnStats([]config.UpstreamConfig{uc}, nil)
+			upstream.ResetWithOnStats([]config.UpstreamConfig{uc, other}, nil)
 		}
 		bursts := [][]map[string]interface{}{burst()}
 		for _, t := range c.Toggles {
